@@ -447,7 +447,13 @@ fn run_history(st: &mut Stream, idx: u64, case: &Case, root: &Path) {
                         _ => disk.push((s.label, ks)),
                     }
                 }
-                let disk_set: BTreeSet<u64> = disk.iter().flat_map(|(_, v)| v.iter().copied()).collect();
+                // a row present in several directories (WAL replay flushed again: recorded finding
+                // C01-wal-replay-duplicates) is answered from the first one (deduplication by id)
+                let mut seen_disk: BTreeSet<u64> = BTreeSet::new();
+                for (_, v) in disk.iter_mut() {
+                    v.retain(|k| seen_disk.insert(*k));
+                }
+                let disk_set: BTreeSet<u64> = seen_disk;
                 let dup = window || disk_set.iter().any(|k| wmem.contains(k));
                 let app: Vec<u64> = applied.iter().filter(|(_, cc, tt)| sel(*cc, *tt)).map(|(k, _, _)| *k).collect();
                 let Some(seq) = replay_once(&mut ex, c, ty) else {
